@@ -322,13 +322,18 @@ impl BTreeSet<u64> {
     pub fn insert(&mut self, x: u64) -> (r: bool) ensures final(self)@ == old(self)@.insert(x) { unimplemented!() }
     #[verifier::external_body]
     pub fn contains(&self, x: &u64) -> (r: bool) ensures r == self@.contains(*x) { unimplemented!() }
+    /// the ascending enumeration of the set (what iteration yields)
+    pub uninterp spec fn spec_seq(&self) -> Seq<u64>;
     /// `for id in &set`: ascending enumeration (rule R-for-collect)
     #[verifier::external_body]
     pub fn verif_to_vec(&self) -> (r: Vec<u64>)
-        ensures r@.to_set() == self@, r@.no_duplicates(),
+        ensures r@ == self.spec_seq(), r@.to_set() == self@, r@.no_duplicates(),
                 forall |i: int, j: int| 0 <= i < j < r@.len() ==> r@[i] < r@[j],
     { unimplemented!() }
 }
+/// a BTreeSet<u64> is finite: its ascending enumeration lists every element once
+pub axiom fn axiom_btreeset_seq(s: &BTreeSet<u64>)
+    ensures s.spec_seq().to_set() == s@, s.spec_seq().no_duplicates();
 
 // ---- shims for the types behind log.rs' structs (opaque in this unit) ---------------------------------
 #[verifier::external_body]
